@@ -44,7 +44,10 @@ def get_inherited(t: Type) -> Type:
 
     g_args = get_args(t)
     if len(g_args) > 0:
-        mapping = {a.__name__: v for a, v in zip(r.__parameters__, g_args)}
+        # The arguments fill in the type variables of `t`'s own class, in the order that class
+        # declares them - which need not be the order its base uses them in.
+        own_parameters = getattr(get_origin(t), "__parameters__", r.__parameters__)
+        mapping = {a.__name__: v for a, v in zip(own_parameters, g_args)}
 
         r_base = get_origin(r)
         assert r_base is not None, "Internal error"
@@ -52,7 +55,7 @@ def get_inherited(t: Type) -> Type:
         # Get us back to typing if this is a common interface.
         # This is not needed in python 3.11 and forward, where
         # collections.abc.X can are all be parameterized.
-        if r_base.__name__ in typing.__dict__:
+        if r_base.__module__ == "collections.abc" and r_base.__name__ in typing.__dict__:
             r_base = typing.__dict__[r_base.__name__]
 
         # Re-parameterize the type with the information e have from this parameterization.
